@@ -33,9 +33,9 @@ struct Cb {
 };
 #else
 struct Cb {
-	uint32_t id;
-	explicit Cb(uint32_t i) : id(i) {}
-	void operator()(uint32_t a, uint32_t b) const { g_tr.add(id, a, b); }
+	uint32_t id; mutable uint32_t calls;      // a callable with its own state: the STORED object is the one that is invoked, every time
+	explicit Cb(uint32_t i) : id(i), calls(0) {}
+	void operator()(uint32_t a, uint32_t b) const { ++calls; g_tr.add(id, a, b); }
 	bool operator==(const Cb & o) const { return id == o.id; }
 };
 #endif
@@ -51,10 +51,11 @@ struct Pol { using Threading = THREADING; using Callback = Cb; };
 using CL = eventpp::CallbackList<void(uint32_t, uint32_t), Pol>;
 
 struct Model {
-	int order[MAXN]; int cnt; bool live[MAXN]; uint32_t id[MAXN]; int alloc;
+	int order[MAXN]; int cnt; bool live[MAXN]; uint32_t id[MAXN]; int alloc; uint32_t calls[MAXN];
+	void invoked() { for(int k = 0; k < cnt; k++) calls[order[k]]++; }
 	void add_at(int pos, uint32_t i) {
 		for(int k = cnt; k > pos; k--) order[k] = order[k - 1];
-		order[pos] = alloc; cnt++; live[alloc] = true; id[alloc] = i; alloc++;
+		order[pos] = alloc; cnt++; live[alloc] = true; id[alloc] = i; calls[alloc] = 0; alloc++;
 	}
 	int pos(int slot) const { for(int k = 0; k < cnt; k++) if(order[k] == slot) return k; return -1; }
 	bool isLive(int slot) const { return slot < alloc && live[slot]; }
@@ -78,7 +79,7 @@ static void observe(St * st, Model & m, bool final_step)
 	// invocation: exactly the model's callbacks, once each, in order, with the invocation's arguments
 	uint32_t a = vf_nondet_u32(), b = vf_nondet_u32();
 	g_tr.clear();
-	st->list(a, b);
+	st->list(a, b); m.invoked();
 	vf_assert(g_tr.n == m.cnt, 12);
 	for(int i = 0; i < m.cnt && i < g_tr.n; i++) {
 		vf_assert(g_tr.e[i].id == m.id[m.order[i]], 13);
@@ -87,18 +88,21 @@ static void observe(St * st, Model & m, bool final_step)
 	}
 	if(m.cnt >= 2) vf_cover(COV_INVOKE2);
 	// forEach with (handle, callback): same content, each handle owned and equal to the one handed out
-	int n = 0; bool ok = true;
+	int n = 0; bool ok = true, okcalls = true;
 	st->list.forEach([&](const CL::Handle & h, const CL::Callback & cb) {
 		if(n < m.cnt) {
 #ifndef CBFUNC
 			if(!(cb.id == m.id[m.order[n]])) ok = false;
+#ifndef TRACKED
+			if(cb.calls != m.calls[m.order[n]]) okcalls = false;      // the stored callable itself was invoked, each time it was in the list
+#endif
 #endif
 			auto p = h.lock(); auto q = st->hs[m.order[n]].lock();
 			if(!p || p != q) ok = false;
 		}
 		++n;
 	});
-	vf_assert(n == m.cnt, 15); vf_assert(ok, 16);
+	vf_assert(n == m.cnt, 15); vf_assert(ok, 16); vf_assert(okcalls, 25);
 	// forEach with (callback) only
 	n = 0;
 	st->list.forEach([&](const CL::Callback &) { ++n; });
@@ -116,7 +120,7 @@ static void observe(St * st, Model & m, bool final_step)
 		});
 		vf_assert(r1 && ! r2 && ! own, 22);
 		m.remove(m.order[0]);
-		g_tr.clear(); st->list(a, b);
+		g_tr.clear(); st->list(a, b); m.invoked();
 		vf_assert(g_tr.n == m.cnt, 23);
 		for(int i = 0; i < m.cnt && i < g_tr.n; i++) vf_assert(g_tr.e[i].id == m.id[m.order[i]], 24);
 	}
